@@ -338,6 +338,13 @@ def wide_layouts():
             for parts in itertools.product(WIDE_PARTS + [total], repeat=n):
                 if sum(parts) == total:
                     out.append((total, list(parts)))
+    # the size axis: single fields and splits around 2^7, 2^8 and 2^10 bits (totals are multiples of 8)
+    for w in (127, 128, 129, 255, 256, 257, 320, 511, 512, 513, 521, 1000, 1023, 1024, 1025):
+        pad = (-w) % 8
+        out.append((w + pad, [w] + ([pad] if pad else [])))
+        if pad:
+            out.append((w + pad, [pad, w]))
+    out += [(264, [3, 256, 5]), (520, [256, 264]), (1032, [1, 1024, 7]), (2048, [2048]), (4104, [4, 4096, 4])]
     # dedupe
     seen, res = set(), []
     for t, p in out:
@@ -348,6 +355,20 @@ def wide_layouts():
 
 
 def patterns(total):
+    if total > 128:
+        # long regions: the fill patterns plus single set / cleared bits at both ends and next to every 64-bit boundary
+        full = (1 << total) - 1
+        nb = total // 8
+        vals = {0, full, int("55" * nb, 16), int("aa" * nb, 16), int("80" * nb, 16), int("01" * nb, 16), int.from_bytes(bytes((i * 37 + 11) % 251 for i in range(nb)), "big")}
+        spots = {0, 1, 7, 8, total - 1, total - 2, total - 8, total - 9}
+        for k in range(64, total, 64):
+            spots |= {k - 1, k, k + 1}
+        for k in (255, 256, 257, 1023, 1024, 1025):
+            spots.add(k)
+        for i in sorted(b for b in spots if 0 <= b < total):
+            vals.add(1 << i)
+            vals.add(full ^ (1 << i))
+        return sorted(vals)
     full = (1 << total) - 1
     vals = {0, full, int("55" * (total // 8), 16), int("aa" * (total // 8), 16), int("0f" * (total // 8), 16),
             int("80" * (total // 8), 16), int("01" * (total // 8), 16), int("7f" * (total // 8), 16)}
